@@ -37,6 +37,24 @@ pub fn run(run: &mut Run, seed: u64, thorough: bool, replay: Option<&str>, corpu
             cases.push(case_line(emu, w, h, &toks));
         }
     }
+    if replay.is_none() {
+        // exhaustive short streams over the control alphabets of the byte-oriented emulations and the wrappers:
+        // pairs in quick, triples in thorough, on a small screen after a scrollback-filling prefix and on a fresh one
+        let lf = |emu: Emu| -> Token {
+            let c = match emu {
+                Emu::Atascii => '\u{9b}',
+                Emu::Petscii => '\r',
+                _ => '\n',
+            };
+            Token { label: "LFxN".into(), chars: vec![c; 6] }
+        };
+        for emu in [Emu::Atascii, Emu::Petscii, Emu::Viewdata, Emu::Mode7, Emu::Ascii, Emu::Avatar, Emu::CtrlA] {
+            let alpha = byte_alphabet(emu);
+            let depth = if thorough { 3 } else { 2 };
+            exhaustive(emu, 7, 4, &[], &alpha, depth, &mut cases);
+            exhaustive(emu, 7, 4, &[lf(emu)], &alpha, depth, &mut cases);
+        }
+    }
     let results = run_in_workers("c01", &dir, &cases, 20);
     for (case, res) in cases.iter().zip(results.iter()) {
         let short: String = case.split_whitespace().take(4).collect::<Vec<_>>().join("_");
